@@ -6,6 +6,7 @@ import (
 	"github.com/gopher-fleece/gleece/v2/definitions"
 	"github.com/gopher-fleece/gleece/v2/generator/swagen/swagtool"
 	"github.com/gopher-fleece/gleece/v2/infrastructure/logger"
+	"github.com/gopher-fleece/gleece/v2/infrastructure/verifhook"
 	"github.com/pb33f/libopenapi"
 	validator "github.com/pb33f/libopenapi-validator"
 	"github.com/pb33f/libopenapi/datamodel/high/base"
@@ -69,6 +70,7 @@ func GenerateSpec(config *definitions.OpenAPIGeneratorConfig, defs []definitions
 		return nil, err
 	}
 	logger.Info("Controllers spec v3.1 generated successfully")
+	verifhook.Emit("Spec31Built")
 
 	jsonData, err := doc.RenderJSON("    ")
 	if err != nil {
@@ -95,6 +97,7 @@ func GenerateSpec(config *definitions.OpenAPIGeneratorConfig, defs []definitions
 	}
 
 	succeeded, docValidatorErrs := specValidator.ValidateDocument()
+	verifhook.Emit("Spec31Validated", "ok", succeeded)
 
 	if !succeeded {
 		docValidationText := FormatValidationErrors(docValidatorErrs)
